@@ -41,7 +41,7 @@ Ltac ifsides_tac :=
 Ltac jloop_with jp :=
   first [ eapply l_exit; [cbn [incr_of opt_list]; jp|lazy; reflexivity]
         | eapply l_break; [cbn [incr_of opt_list]; jp|lazy; reflexivity|jp]
-        | eapply l_next; [cbn [incr_of opt_list]; jp|lazy; reflexivity|jp|discriminate|jloop_with jp] ].
+        | eapply l_next; [cbn [incr_of opt_list]; jp|lazy; reflexivity|jp|first [left; reflexivity|right; reflexivity]|jloop_with jp] ].
 
 Ltac subset_tac := let x := fresh "x" in let Hx := fresh "Hx" in intros x Hx; cbn in Hx; repeat (destruct Hx as [<-|Hx]; [in_tac|]); destruct Hx.
 
@@ -50,11 +50,14 @@ Ltac agree_tac :=
   intros x Hg; split; intro H; cbn in H; repeat (destruct H as [<-|H]; [first [discriminate Hg|in_tac]|]); destruct H.
 
 (* a call of the function F (a fdef), the derivation of its body by jp *)
+Ltac ret_tac := first [left; reflexivity|right; split; reflexivity].
 Ltac scall_tac F jp :=
-  cbn [scall_at]; exists F; eexists;
+  cbn [scall_at]; exists F; eexists; eexists;
   split; [in_tac|]; split; [reflexivity|]; split; [vm_compute; lia|]; split; [vm_compute; lia|];
   split; [agree_tac|]; split; [reflexivity|]; split; [env_all|];
-  split; [cbn [fd_body fd_vars fd_params bind]; jp|]; split; [lazy; reflexivity|reflexivity].
+  split; [cbn [fd_body fd_vars fd_params bind]; jp|]; split; [ret_tac|reflexivity].
+
+Ltac scall_any F jp := lazymatch F with (?A, ?B) => first [scall_any A jp|scall_any B jp] | _ => scall_tac F jp end.
 
 Ltac jprogF F :=
   lazymatch goal with
@@ -67,17 +70,18 @@ Ltac jprogF F :=
       eapply j_define_multi; [reflexivity|sides_tac|subset_tac|cbn; lia|reflexivity|lazy; reflexivity|cbn [assign_all]; env_all|cbn [assign_all]; jprogF F]
   | |- J _ _ (Prog (SPrint _ :: _)) _ _ _ _ => eapply j_print; [reflexivity|sides_tac|lazy; reflexivity|jprogF F]
   | |- J _ _ (Prog (SVarDefCall [_] (ECall _ [_] _) :: _)) _ _ _ _ =>
-      eapply j_call_define; [reflexivity|sides_tac|in_tac|lazy; reflexivity|scall_tac F ltac:(idtac; jprogF F)|env_all|jprogF F]
+      eapply j_call_define; [reflexivity|sides_tac|in_tac|lazy; reflexivity|scall_any F ltac:(idtac; jprogF F)|env_all|jprogF F]
   | |- J _ _ (Prog (SAssignCall [_] (ECall _ [_] _) :: _)) _ _ _ _ =>
-      eapply j_call_assign; [reflexivity|sides_tac|in_tac|lazy; reflexivity|scall_tac F ltac:(idtac; jprogF F)|env_all|jprogF F]
+      eapply j_call_assign; [reflexivity|sides_tac|in_tac|lazy; reflexivity|scall_any F ltac:(idtac; jprogF F)|env_all|jprogF F]
   | |- J _ _ (Prog (SVarDefCall _ _ :: _)) _ _ _ _ =>
-      eapply j_call_define_multi; [reflexivity|sides_tac|subset_tac|lazy; reflexivity|scall_tac F ltac:(idtac; jprogF F)|reflexivity|reflexivity
+      eapply j_call_define_multi; [reflexivity|sides_tac|subset_tac|lazy; reflexivity|scall_any F ltac:(idtac; jprogF F)|reflexivity|reflexivity
                                   |cbn [assign_all]; env_all|cbn [assign_all]; jprogF F]
   | |- J _ _ (Prog (SAssignCall _ _ :: _)) _ _ _ _ =>
-      eapply j_call_assign_multi; [reflexivity|sides_tac|subset_tac|lazy; reflexivity|scall_tac F ltac:(idtac; jprogF F)|reflexivity|reflexivity
+      eapply j_call_assign_multi; [reflexivity|sides_tac|subset_tac|lazy; reflexivity|scall_any F ltac:(idtac; jprogF F)|reflexivity|reflexivity
                                   |cbn [assign_all]; env_all|cbn [assign_all]; jprogF F]
   | |- J _ _ (Prog (SExpr (ECall _ _ _) :: _)) _ _ _ _ =>
-      eapply j_call_stmt; [reflexivity|sides_tac|lazy; reflexivity|scall_tac F ltac:(idtac; jprogF F)|env_all|jprogF F]
+      eapply j_call_stmt; [reflexivity|sides_tac|lazy; reflexivity|scall_any F ltac:(idtac; jprogF F)|env_all|jprogF F]
+  | |- J _ _ (Prog (SReturn _ :: _)) _ _ _ _ => eapply j_return; [reflexivity|sides_tac|lazy; reflexivity|reflexivity]
   | |- J _ _ (Prog (SBreak :: _)) _ _ _ _ => apply j_break; reflexivity
   | |- J _ _ (Prog (SContinue :: _)) _ _ _ _ => apply j_continue; reflexivity
   | |- J _ _ (Prog (SIf ((?c0, ?b0) :: ?elifs) ?els :: _)) ?sg _ _ _ =>
@@ -162,9 +166,8 @@ Definition pb : var := mkVar (bs "b") (T DInt) false false.
 Definition lc : var := mkVar (bs "c") (T DInt) false false.
 Definition gg : var := mkVar (bs "g") (T DInt) true false.
 Definition gy : var := mkVar (bs "y") (T DInt) true false.
-Definition add_body : list stmt := [SVarDef [lc] [EBinary (EVar pa) OpAdd (EVar pb)]; SPrint [EStr (bs "in"); EVar lc]].
-Definition add_rets : list expr := [EVar lc].
-Definition add_def : stmt := SFunc (bs "add") [T DInt] [pa; pb] (add_body ++ [SReturn add_rets]) false.
+Definition add_body : list stmt := [SVarDef [lc] [EBinary (EVar pa) OpAdd (EVar pb)]; SPrint [EStr (bs "in"); EVar lc]; SReturn [EVar lc]].
+Definition add_def : stmt := SFunc (bs "add") [T DInt] [pa; pb] add_body false.
 Definition main_add : list stmt :=
   [SVarDef [gg] [EInt 1];
    SVarDefCall [gy] (ECall (bs "add") [T DInt] [EVar gg; EInt 41]);
@@ -172,20 +175,19 @@ Definition main_add : list stmt :=
    SExpr (ECall (bs "add") [T DInt] [EVar gy; EVar gy])].
 Definition st_of (r : tres bstate unit) : bstate := match r with TOk _ s => s | _ => b_init end.
 Definition s_add_f : bstate := cv_func_start bstate atom bash_conv (bs "add") [bs "a"; bs "b"] [T DInt] b_init.
-Definition s_add_b : bstate := st_of (go_fix add_body s_add_f).
-Definition s_add_r : bstate := st_of (t_stmt bash_conv (SReturn add_rets) s_add_b).
+Definition s_add_r : bstate := st_of (go_fix add_body s_add_f).
 Definition s_main : bstate := st_of (t_stmt bash_conv add_def b_init).
 Definition s_end : bstate := st_of (go_fix main_add s_main).
 Definition script_add : list line := b_code s_end.
 Definition XSf_add : list var := [gg; gy; pa; pb; lc].
 Definition XS_main : list var := [gg; gy].
-Definition F_add : fdef := mkFdef (bs "add") [pa; pb] add_body add_rets XSf_add s_add_f s_add_b s_add_r.
+Definition F_add : fdef := mkFdef (bs "add") [pa; pb] add_body XSf_add s_add_f s_add_r.
 
 Ltac cases_in H tac := cbn in H; repeat (destruct H as [<-|H]; [tac|]); destruct H.
 
 Lemma add_fun_ok : fun_ok script_add F_add.
 Proof.
-  unfold fun_ok. cbn [F_add fd_sf fd_sb fd_sr fd_vars fd_params fd_body fd_rets fd_name].
+  unfold fun_ok. cbn [F_add fd_sf fd_sr fd_vars fd_params fd_body fd_name].
   split; [vm_compute; lia|].
   split; [intros x Hx; cases_in Hx ltac:(reflexivity)|].
   split; [intros x k Hx; cases_in Hx ltac:(names_tac)|].
@@ -200,8 +202,7 @@ Proof.
     - intros x c y Hx Hc. assert (c = 0%nat) as -> by (vm_compute in Hc; lia). cases_in Hx ltac:(names_tac).
     - intros x i Hx. cases_in Hx ltac:(names_tac). }
   split; [intros p Hp; cases_in Hp ltac:(split; [reflexivity|in_tac])|].
-  split; [vm_compute; reflexivity|]. split; [reflexivity|]. split; [vm_compute; reflexivity|]. split; [reflexivity|].
-  split; [sides_tac|].
+  split; [vm_compute; reflexivity|]. split; [reflexivity|].
   eexists. eexists. split; vm_compute; reflexivity.
 Qed.
 
@@ -249,25 +250,25 @@ Definition gx : var := mkVar (bs "x") (T DInt) true false.
 Definition gy2 : var := mkVar (bs "y") (T DInt) true false.
 Definition gq : var := mkVar (bs "q") (T DInt) true false.
 Definition gr : var := mkVar (bs "r") (T DInt) true false.
-Definition dm_rets : list expr := [EBinary (EVar pa) OpDiv (EVar pb); EBinary (EVar pa) OpMod (EVar pb)].
-Definition dm_def : stmt := SFunc (bs "divmod") [T DInt; T DInt] [pa; pb] ([] ++ [SReturn dm_rets]) false.
+Definition dm_body : list stmt := [SReturn [EBinary (EVar pa) OpDiv (EVar pb); EBinary (EVar pa) OpMod (EVar pb)]].
+Definition dm_def : stmt := SFunc (bs "divmod") [T DInt; T DInt] [pa; pb] dm_body false.
 Definition main_dm : list stmt :=
   [SVarDef [gx] [EInt 17]; SVarDef [gy2] [EInt 5];
    SAssign [gx; gy2] [EVar gy2; EVar gx];
    SVarDefCall [gq; gr] (ECall (bs "divmod") [T DInt; T DInt] [EVar gx; EVar gy2]);
    SPrint [EVar gx; EVar gy2; EVar gq; EVar gr]].
 Definition s_dm_f : bstate := cv_func_start bstate atom bash_conv (bs "divmod") [bs "a"; bs "b"] [T DInt; T DInt] b_init.
-Definition s_dm_r : bstate := st_of (t_stmt bash_conv (SReturn dm_rets) s_dm_f).
+Definition s_dm_r : bstate := st_of (go_fix dm_body s_dm_f).
 Definition s_dm_main : bstate := st_of (t_stmt bash_conv dm_def b_init).
 Definition s_dm_end : bstate := st_of (go_fix main_dm s_dm_main).
 Definition script_dm : list line := b_code s_dm_end.
 Definition XSf_dm : list var := [gx; gy2; gq; gr; pa; pb].
 Definition XS_dm : list var := [gx; gy2; gq; gr].
-Definition F_dm : fdef := mkFdef (bs "divmod") [pa; pb] [] dm_rets XSf_dm s_dm_f s_dm_f s_dm_r.
+Definition F_dm : fdef := mkFdef (bs "divmod") [pa; pb] dm_body XSf_dm s_dm_f s_dm_r.
 
 Lemma dm_fun_ok : fun_ok script_dm F_dm.
 Proof.
-  unfold fun_ok. cbn [F_dm fd_sf fd_sb fd_sr fd_vars fd_params fd_body fd_rets fd_name].
+  unfold fun_ok. cbn [F_dm fd_sf fd_sr fd_vars fd_params fd_body fd_name].
   split; [vm_compute; lia|].
   split; [intros x Hx; cases_in Hx ltac:(reflexivity)|].
   split; [intros x k Hx; cases_in Hx ltac:(names_tac)|].
@@ -282,8 +283,7 @@ Proof.
     - intros x c y Hx Hc. assert (c = 0%nat) as -> by (vm_compute in Hc; lia). cases_in Hx ltac:(names_tac).
     - intros x i Hx. cases_in Hx ltac:(names_tac). }
   split; [intros p Hp; cases_in Hp ltac:(split; [reflexivity|in_tac])|].
-  split; [reflexivity|]. split; [reflexivity|]. split; [vm_compute; reflexivity|]. split; [reflexivity|].
-  split; [sides_tac|].
+  split; [vm_compute; reflexivity|]. split; [reflexivity|].
   eexists. eexists. split; vm_compute; reflexivity.
 Qed.
 
@@ -318,5 +318,89 @@ Proof.
   assert (forall F, In F [F_dm] -> fun_ok script_dm F) as Hok by (intros F [<-|[]]; exact dm_fun_ok).
   destruct (calls_preserved [F_dm] script_dm 1 0 2 [] Hok XS_dm sg_empty main_dm sgF _ s_dm_main tt s_dm_end [] HJ
               ltac:(vm_compute; reflexivity) eq_refl ltac:(intros y w H; discriminate H) ctx_dm fresh_dm) as (X & b' & Hx & Hrun & _).
+  exists X, b'. split; [exact Hx|exact Hrun].
+Qed.
+
+(* ---- return inside a branch, and a function without results ----
+   func abs(a int) int { if a < 0 { return 0 - a }; return a }   func show(a int) { print("v", a) }
+   x := abs(0 - 5); y := abs(3); show(x + y) *)
+Definition abs_body : list stmt :=
+  [SIf [(ECompare (EVar pa) CLt (EInt 0), [SReturn [EBinary (EInt 0) OpSub (EVar pa)]])] []; SReturn [EVar pa]].
+Definition show_body : list stmt := [SPrint [EStr (bs "v"); EVar pa]].
+Definition abs_def : stmt := SFunc (bs "abs") [T DInt] [pa] abs_body false.
+Definition show_def : stmt := SFunc (bs "show") [] [pa] show_body false.
+Definition main_abs : list stmt :=
+  [SVarDefCall [gx] (ECall (bs "abs") [T DInt] [EBinary (EInt 0) OpSub (EInt 5)]);
+   SVarDefCall [gy2] (ECall (bs "abs") [T DInt] [EInt 3]);
+   SExpr (ECall (bs "show") [] [EBinary (EVar gx) OpAdd (EVar gy2)])].
+Definition s_abs_f : bstate := cv_func_start bstate atom bash_conv (bs "abs") [bs "a"] [T DInt] b_init.
+Definition s_abs_r : bstate := st_of (go_fix abs_body s_abs_f).
+Definition s_abs_done : bstate := st_of (t_stmt bash_conv abs_def b_init).
+Definition s_show_f : bstate := cv_func_start bstate atom bash_conv (bs "show") [bs "a"] [] s_abs_done.
+Definition s_show_r : bstate := st_of (go_fix show_body s_show_f).
+Definition s_abs_main : bstate := st_of (t_stmt bash_conv show_def s_abs_done).
+Definition s_abs_end : bstate := st_of (go_fix main_abs s_abs_main).
+Definition script_abs : list line := b_code s_abs_end.
+Definition XS_abs : list var := [gx; gy2].
+Definition XSf_abs : list var := [gx; gy2; pa].
+Definition F_abs : fdef := mkFdef (bs "abs") [pa] abs_body XSf_abs s_abs_f s_abs_r.
+Definition F_show : fdef := mkFdef (bs "show") [pa] show_body XSf_abs s_show_f s_show_r.
+
+Ltac fun_ok_tac :=
+  unfold fun_ok; cbn [F_abs F_show fd_sf fd_sr fd_vars fd_params fd_body fd_name];
+  split; [vm_compute; lia|];
+  split; [let x := fresh "x" in let Hx := fresh "Hx" in intros x Hx; cases_in Hx ltac:(reflexivity)|];
+  split; [let x := fresh "x" in let k := fresh "k" in let Hx := fresh "Hx" in intros x k Hx; cases_in Hx ltac:(names_tac)|];
+  split; [let y := fresh "y" in let z := fresh "z" in let Hy := fresh "Hy" in let Hz := fresh "Hz" in
+          intros y z Hy Hz; cbn in Hy, Hz;
+          repeat (destruct Hy as [<-|Hy]; [repeat (destruct Hz as [<-|Hz]; [first [intros _; reflexivity|names_tac]|]); destruct Hz|]); destruct Hy|];
+  split; [split; [|split; [|split; [|split]]];
+          [ let x := fresh "x" in let k := fresh "k" in let Hx := fresh "Hx" in intros x k Hx; cases_in Hx ltac:(names_tac)
+          | let x := fresh "x" in let k := fresh "k" in let Hx := fresh "Hx" in intros x k Hx; cases_in Hx ltac:(names_tac)
+          | apply le_n
+          | let x := fresh "x" in let c := fresh "c" in let y := fresh "y" in let Hx := fresh "Hx" in let Hc := fresh "Hc" in
+            intros x c y Hx Hc; vm_compute in Hc;
+            repeat (destruct c as [|c]; [cases_in Hx ltac:(names_tac)|]); exfalso; lia
+          | let x := fresh "x" in let k := fresh "k" in let Hx := fresh "Hx" in intros x k Hx; cases_in Hx ltac:(names_tac) ]|];
+  split; [let q := fresh "q" in let Hq := fresh "Hq" in intros q Hq; cases_in Hq ltac:(split; [reflexivity|in_tac])|];
+  split; [vm_compute; reflexivity|]; split; [reflexivity|];
+  eexists; eexists; split; vm_compute; reflexivity.
+
+Lemma abs_fun_ok : fun_ok script_abs F_abs.
+Proof. fun_ok_tac. Qed.
+Lemma show_fun_ok : fun_ok script_abs F_show.
+Proof. fun_ok_tac. Qed.
+
+Lemma ctx_abs : ctx_ok XS_abs sg_empty [] s_abs_main.
+Proof.
+  constructor.
+  - intros x Hx. cases_in Hx ltac:(reflexivity).
+  - intros x v _ Hv. discriminate Hv.
+  - intros x k Hx. cases_in Hx ltac:(names_tac).
+  - intros y z Hy Hz. cbn in Hy, Hz.
+    repeat (destruct Hy as [<-|Hy]; [repeat (destruct Hz as [<-|Hz]; [first [intros _; reflexivity|names_tac]|]); destruct Hz|]). destruct Hy.
+Qed.
+
+Lemma fresh_abs : fresh_flags 0 3 XS_abs s_abs_main.
+Proof.
+  split; [|split; [|split; [|split]]].
+  - intros x k Hx. cases_in Hx ltac:(names_tac).
+  - intros x i Hx. cases_in Hx ltac:(names_tac).
+  - apply le_n.
+  - intros x c y Hx _. cases_in Hx ltac:(names_tac).
+  - intros x i Hx. cases_in Hx ltac:(names_tac).
+Qed.
+
+Lemma abs_sample_derivation :
+  exists sgF out, J (scall_at [F_abs; F_show] 1 0 3) XS_abs (Prog main_abs) sg_empty sgF out SN /\ out = bs "v 8" ++ [10].
+Proof. eexists. eexists. split; [unfold main_abs; jprogF (F_abs, F_show)|vm_compute; reflexivity]. Qed.
+
+Lemma abs_sample_applies :
+  exists X b', b_code s_abs_end = b_code s_abs_main ++ X /\ lruns (call_of script_abs 1) [] [] [] X (b', bs "v 8" ++ [10]).
+Proof.
+  destruct abs_sample_derivation as (sgF & out & HJ & ->).
+  assert (forall F, In F [F_abs; F_show] -> fun_ok script_abs F) as Hok by (intros F [<-|[<-|[]]]; [exact abs_fun_ok|exact show_fun_ok]).
+  destruct (calls_preserved [F_abs; F_show] script_abs 1 0 3 [] Hok XS_abs sg_empty main_abs sgF _ s_abs_main tt s_abs_end [] HJ
+              ltac:(vm_compute; reflexivity) eq_refl ltac:(intros y w H; discriminate H) ctx_abs fresh_abs) as (X & b' & Hx & Hrun & _).
   exists X, b'. split; [exact Hx|exact Hrun].
 Qed.
